@@ -12,7 +12,11 @@ EXTENDS Optimizer, TLC, Json, IOUtils
 Cases == JsonDeserialize(IOEnv.CASES_FILE)
 VARIABLES tid, verdict
 Case  == Cases[tid]
-Verdict(c) == IF FDen(c.orig, c.n) # FDen(c.opt, c.n) THEN "FiniteMapChanged"
+\* Merge never succeeds on a measurement (Optimizer.tla): the measurements of the source survive, in order, with their arguments
+IsMeasCmd(o) == o.name \in {"MeasureHomodyne", "MeasureHeterodyne", "MeasureFock", "MeasureThreshold"}
+MeasSeq(q) == SelectSeq(q, IsMeasCmd)
+Verdict(c) == IF MeasSeq(c.orig) # MeasSeq(c.opt) THEN "MeasurementNotPreserved"
+              ELSE IF FDen(c.orig, c.n) # FDen(c.opt, c.n) THEN "FiniteMapChanged"
               ELSE IF AllGaussian(c.orig) /\ AllGaussian(c.opt) /\ ExactDen(c.orig, c.n) # ExactDen(c.opt, c.n)
                    THEN "ExactStateChanged"
               ELSE "accepted"
